@@ -1,5 +1,5 @@
 SPECIFICATION MCSpec
-CONSTANTS MaxFaults = 1 MaxSigs = 1 Sigs = {"TERM"} AllFlagCombos = FALSE MaxFiles = 2
+CONSTANTS MaxFaults = 2 MaxSigs = 1 Sigs = {"PIPE"} AllFlagCombos = FALSE MaxFiles = 1
 INVARIANTS TypeOK DataSafe FailureKeepsSource FailureCleansUp NoJunkLeft ExitZeroMeansDone FailureIsReported
            KeepNeverRemoves NoForeignLost NoOverwrite CleanBetweenFiles AbortDiesBySignal
 CHECK_DEADLOCK FALSE
